@@ -908,10 +908,20 @@ impl FileScheduler {
 
         let mut merged_requests = Vec::with_capacity(request.len());
 
-        if !request.is_empty() {
-            let mut curr_interval = request[0].clone();
+        // Coalescing (and un-coalescing) relies on the requested ranges being sorted by start
+        // offset.  Anything else is rejected below, before any I/O is issued.
+        let is_sorted = request
+            .iter()
+            .filter(|req| !req.is_empty())
+            .map(|req| req.start)
+            .is_sorted();
 
-            for req in request.iter().skip(1) {
+        // Empty ranges need no I/O (they are answered with an empty buffer below)
+        let mut to_merge = request.iter().filter(|req| !req.is_empty());
+        if let (true, Some(first)) = (is_sorted, to_merge.next()) {
+            let mut curr_interval = first.clone();
+
+            for req in to_merge {
                 if is_close_together(&curr_interval, req, self.block_size) {
                     curr_interval.end = curr_interval.end.max(req.end);
                 } else {
@@ -952,6 +962,15 @@ impl FileScheduler {
         let mut final_bytes = Vec::with_capacity(request.len());
 
         async move {
+            if !is_sorted {
+                return Err(Error::invalid_input(
+                    format!(
+                        "byte ranges submitted to the file scheduler must be sorted by start offset, got {:?}",
+                        request
+                    ),
+                    location!(),
+                ));
+            }
             let bytes_vec = bytes_vec_fut.await?;
 
             // We need to undo the coalescing and splitting done earlier.  The updated requests
